@@ -50,6 +50,7 @@ type c09Pool struct {
 	duplicates  int
 	invertedAlt int
 	relaxed     bool // termination pool: superset-of-simple + closed-walk rule
+	other       *c10Enzyme // a second built-in enzyme whose site lies inside one insert (inert for the pool's own enzyme)
 }
 
 // c09Overhangs draws n overhangs of length ov: distinct, non-palindromic, no two reverse complements of each other.
@@ -102,9 +103,12 @@ func c09MaybeFlip(r *rand.Rand, f oracle.LigFragment, p *c09Pool) oracle.LigFrag
 }
 
 func c09Designed(r *rand.Rand, full ...bool) *c09Pool {
-	p := &c09Pool{kind: "designed", enz: c10Builtins[r.Intn(3)]}
+	eIdx := r.Intn(3)
+	p := &c09Pool{kind: "designed", enz: c10Builtins[eIdx]}
 	g := p.enz.geo
 	k := 1 + r.Intn(6)
+	embed := r.Intn(3) == 0
+	embedSlot := r.Intn(k)
 	max := len(full) > 0 && full[0] // the largest design of the scope: 6 junctions x 3 alternatives = 729 rings
 	if max {
 		k = 6
@@ -143,6 +147,20 @@ func c09Designed(r *rand.Rand, full ...bool) *c09Pool {
 					in = rc
 					p.invertedAlt++
 					inverted = false
+				}
+			}
+			if embed && s == embedSlot && a == 0 {
+				// a dual-level insert: it carries a site of another enzyme, which the pool's own enzyme ignores
+				o := c10Builtins[(eIdx+1+r.Intn(2))%3]
+				site := o.geo.Site
+				if r.Intn(2) == 0 {
+					site = oracle.MustRevComp(site)
+				}
+				at := r.Intn(len(in) + 1)
+				if cand := in[:at] + site + in[at:]; !used[cand] && !used[oracle.MustRevComp(cand)] && !c09HasSite(J[s]+cand+J[(s+1)%k], g) {
+					in = cand
+					used[in] = true
+					p.other = &o
 				}
 			}
 			slots[s] = append(slots[s], in)
@@ -491,6 +509,28 @@ func c09ToPoly(fr []oracle.LigFragment) []clone.Fragment {
 	return out
 }
 
+// c09Fatal reports a call that did not come back within its progress budget and ends the child (the runaway
+// goroutines of such a call cannot be stopped from outside).
+func c09Fatal(w *mon.W, id string, p *c09Pool, run c09Run, how string, budget uint64) {
+	if run.exceeded {
+		w.Eval(len(p.frags) >= 2, mon.Hash64(c09PoolText(p)))
+		w.Violation(id, fmt.Sprintf("%s did not finish within its progress budget: %d bytes allocated, budget %d (the harness's terminating enumeration of the same pool builds %d bytes for %d rings) | pool %s",
+			how, run.allocated, budget, p.simple.BytesBuilt, len(p.simple.Rings), clip(c09PoolText(p), 600)), map[string]any{"pool": c09PoolText(p), "how": how})
+		w.Extra("aborted_after_runaway_call", id)
+		w.FinishAndExit()
+	}
+	if run.timedOut {
+		w.Inconclusive(fmt.Sprintf("%s: wall-clock watchdog (300 s) fired during %s", id, how))
+		w.FinishAndExit()
+	}
+	if run.deadlock != "" {
+		w.End()
+		w.Eval(len(p.frags) >= 2, mon.Hash64(c09PoolText(p)))
+		w.Violation(id, fmt.Sprintf("%s never returns: %s | pool %s", how, run.deadlock, clip(c09PoolText(p), 600)), map[string]any{"pool": c09PoolText(p), "how": how})
+		w.FinishAndExit()
+	}
+}
+
 // c09Judge decides one observed result. It returns the arrival-order signature.
 func c09Judge(w *mon.W, id string, p *c09Pool, run c09Run, how string) (sig string, held bool) {
 	rep := map[string]any{"pool": c09PoolText(p), "how": how}
@@ -660,6 +700,25 @@ func runC09(w *mon.W) {
 						for _, pt := range parts {
 							fmt.Fprintf(&sb, " {%s circular=%v}", pt.Sequence, pt.Circular)
 						}
+						// the same parts may have been through another reaction before: a reaction with a second enzyme
+						// whose site lies inside one insert, or a reaction on the first few parts of the same slice
+						switch {
+						case p.other != nil && rep%2 == 1:
+							preHow := fmt.Sprintf("GoldenGate(%s) on the parts later given to %s", p.other.name, how)
+							w.Begin(id, preHow+sb.String())
+							c09Fatal(w, id, p, c09Supervise(func() ([]clone.Part, error) { return clone.GoldenGate(parts, p.other.name) }, budget+64<<20), preHow, budget+64<<20)
+							w.End()
+							how += " after a " + p.other.name + " reaction on the same parts"
+							w.Add("calls_golden_gate_after_a_reaction_with_a_second_enzyme", 1)
+						case len(parts) >= 2 && rep%2 == 0:
+							k := 1 + r.Intn(len(parts)-1)
+							preHow := fmt.Sprintf("GoldenGate(%s) on the first %d parts of the slice later given whole to %s", p.enz.name, k, how)
+							w.Begin(id, preHow+sb.String())
+							c09Fatal(w, id, p, c09Supervise(func() ([]clone.Part, error) { return clone.GoldenGate(parts[:k], p.enz.name) }, budget+64<<20), preHow, budget+64<<20)
+							w.End()
+							how += fmt.Sprintf(" after a reaction on the first %d parts of the same slice", k)
+							w.Add("calls_golden_gate_after_a_reaction_on_a_prefix_of_the_slice", 1)
+						}
 						w.Begin(id, how+sb.String())
 						run = c09Supervise(func() ([]clone.Part, error) { return clone.GoldenGate(parts, p.enz.name) }, budget+64<<20)
 						w.Add("calls_golden_gate", 1)
@@ -673,7 +732,18 @@ func runC09(w *mon.W) {
 				}
 				if !golden {
 					pf := c09ToPoly(frags)
-					w.Begin(id, how+" "+c09PoolText(&c09Pool{kind: p.kind, enz: p.enz, frags: frags}))
+					poolText := c09PoolText(&c09Pool{kind: p.kind, enz: p.enz, frags: frags})
+					if rep%5 == 2 && len(pf) >= 2 {
+						// the caller ligated the first few fragments of the same slice before ligating all of them
+						k := 1 + r.Intn(len(pf)-1)
+						preHow := fmt.Sprintf("CircularLigate on the first %d fragments of the slice later given whole to %s", k, how)
+						w.Begin(id, preHow+" "+poolText)
+						c09Fatal(w, id, p, c09Supervise(func() ([]clone.Part, error) { return clone.CircularLigate(pf[:k]), nil }, budget), preHow, budget)
+						w.End()
+						how += fmt.Sprintf(" after ligating the first %d fragments of the same slice", k)
+						w.Add("calls_circular_ligate_after_a_call_on_a_prefix_of_the_slice", 1)
+					}
+					w.Begin(id, how+" "+poolText)
 					run = c09Supervise(func() ([]clone.Part, error) { return clone.CircularLigate(pf), nil }, budget)
 					w.Add("calls_circular_ligate", 1)
 				}
@@ -681,23 +751,7 @@ func runC09(w *mon.W) {
 				calls++
 				w.Max("peak_goroutines", int64(run.peakG))
 				w.Max("max_bytes_allocated_by_one_call", int64(run.allocated))
-				if run.exceeded {
-					w.Eval(len(p.frags) >= 2, mon.Hash64(c09PoolText(p)))
-					w.Violation(id, fmt.Sprintf("%s did not finish within its progress budget: %d bytes allocated, budget %d (the harness's terminating enumeration of the same pool builds %d bytes for %d rings) | pool %s",
-						how, run.allocated, budget, p.simple.BytesBuilt, nExpected, clip(c09PoolText(p), 600)), map[string]any{"pool": c09PoolText(p), "how": how})
-					w.Extra("aborted_after_runaway_call", id)
-					w.FinishAndExit()
-				}
-				if run.timedOut {
-					w.Inconclusive(fmt.Sprintf("%s: wall-clock watchdog (300 s) fired during %s", id, how))
-					w.FinishAndExit()
-				}
-				if run.deadlock != "" {
-					w.End()
-					w.Eval(len(p.frags) >= 2, mon.Hash64(c09PoolText(p)))
-					w.Violation(id, fmt.Sprintf("%s never returns: %s | pool %s", how, run.deadlock, clip(c09PoolText(p), 600)), map[string]any{"pool": c09PoolText(p), "how": how})
-					w.FinishAndExit()
-				}
+				c09Fatal(w, id, p, run, how, budget)
 				w.End()
 				w.Eval(len(p.frags) >= 2, mon.Hash64(c09PoolText(p), fmt.Sprint(golden)))
 				sig, ok := c09Judge(w, id, p, run, how)
